@@ -233,7 +233,7 @@ class _Family(Contract):
     def modifies(self, **a):
         s = a.get("self_") or a.get("self")
         # a constructor initialises its receiver (and nothing else)
-        return [(s, f) for f in ("type", "tz", "categories", "ordered", "precision", "scale", "rounding", "time_zone_agnostic")]
+        return [(s, f) for f in ("type", "tz", "categories", "ordered", "precision", "scale", "rounding", "time_zone_agnostic", "ordering")]
 
     def ensures(self, result, old, **a):
         s = a.get("self_")
@@ -259,6 +259,7 @@ def _install_native_constructors(I):
         return m
 
     for name, fn in (("pd.DatetimeTZDtype", pd.DatetimeTZDtype), ("pd.CategoricalDtype", pd.CategoricalDtype), ("pd.ArrowDtype", pd.ArrowDtype), ("pl.Datetime", pl.Datetime),
+                     ("pl.Decimal", pl.Decimal), ("pl.Duration", pl.Duration), ("pl.Categorical", pl.Categorical), ("pl.Enum", pl.Enum),
                      ("np.dtype", np.dtype)):
         I.models[id(fn)] = rec(name)
     try:
@@ -336,6 +337,65 @@ def _post_polars_datetime(self, s, a, calls):
     return {"type_is_pl_Datetime_of_time_zone_and_time_unit": ok, "time_zone_agnostic_flag_stored": s.attrs.get("time_zone_agnostic") is False}
 
 
+def _post_polars_native(native, how):
+    """the boxed type is the native type INSTANCE built from exactly the constructor's parameters (never the bare native class: the
+    class and its instances compare equal in polars but hash differently, so `Engine.dtype(pl.X)` and `Engine.dtype(pl.X(...))`
+    would be equal and differently hashed)"""
+
+    def post(self, s, a, calls):
+        c = _only(calls, native)
+        args, kw = how(a)
+        ok = c is not None and len(c[1]) == len(args) and all(x is y for x, y in zip(c[1], args)) and set(c[2]) == set(kw) and all(c[2][k] is v for k, v in kw.items())
+        out = {f"type_is_{native.replace('.', '_')}_of_the_parameters": ok and s.attrs["type"] is c[3]}
+        for k, v in a.items():
+            if k not in ("self", "self_") and k in s.attrs0 or k in ("precision", "scale", "ordering", "categories"):
+                if k in a and k not in ("self", "self_"):
+                    out[f"parameter_{k}_stored"] = s.attrs.get(k) is v
+        return out
+
+    return post
+
+
+def gen_polars_decimal(rng):
+    import polars as pl
+
+    from pandera.engines import polars_engine as PL
+
+    prec = rng.randrange(1, 39)
+    scale = rng.randrange(0, prec + 1)
+    return PL.Engine, PL.Decimal(prec, scale), False, pl.Decimal(precision=prec, scale=scale), f"polars Decimal({prec}, {scale})"
+
+
+def gen_polars_timedelta(rng):
+    import polars as pl
+
+    from pandera.engines import polars_engine as PL
+
+    unit = rng.choice(["ms", "us", "ns"])
+    return PL.Engine, PL.Timedelta(time_unit=unit), False, pl.Duration(unit), f"polars Timedelta({unit!r})"
+
+
+def gen_polars_categorical(rng):
+    import polars as pl
+
+    from pandera.engines import polars_engine as PL
+
+    if rng.random() < 0.3:
+        # the default spelling: the bare native class and a native instance must resolve to one equal, equally hashed type
+        return PL.Engine, PL.Categorical(), False, rng.choice([pl.Categorical, pl.Categorical()]), "polars Categorical()"
+    o = rng.choice(["physical", "lexical"])
+    return PL.Engine, PL.Categorical(ordering=o), False, pl.Categorical(ordering=o), f"polars Categorical({o!r})"
+
+
+def gen_polars_enum(rng):
+    import polars as pl
+
+    from pandera.engines import polars_engine as PL
+
+    cats = rng.sample(["a", "b", "c", "d", "e f", "Ü"], rng.randrange(0, 5))
+    return PL.Engine, PL.Enum(cats), False, pl.Enum(cats), f"polars Enum({cats!r})"
+
+
 def _family(name, target, params, gen, call=None, post=None):
     class F(_Family):
         pass
@@ -348,7 +408,8 @@ def _family(name, target, params, gen, call=None, post=None):
     F.__doc__ = _Family.__doc__
     if call is not None:
         F.call_target = call
-    F.bounded_standin = staticmethod(lambda seed=0, tier="quick", _g=gen, _n=name, _t=target: _run_family(_n, _t, 500, _g, seed=seed, tier=tier))
+    if gen is not None:
+        F.bounded_standin = staticmethod(lambda seed=0, tier="quick", _g=gen, _n=name, _t=target: _run_family(_n, _t, 500, _g, seed=seed, tier=tier))
     return F
 
 
@@ -371,6 +432,15 @@ FAMILIES = [
             call=lambda self, I, fn, a: I.call(fn, [a["self"]], {}), post=_post_arrow_timestamp),
     _family("polars_temporal", f"{PL_}:DateTime.__init__", dict(self=_ref(PL_, "DateTime"), time_zone=T.Any, time_unit=T.Opt(T.Any)), gen_polars_temporal,
             call=lambda self, I, fn, a: I.call(fn, [a["self"], False, a["time_zone"], a["time_unit"]], {}), post=_post_polars_datetime),
+    _family("polars_decimal", f"{PL_}:Decimal.__init__", dict(self=_ref(PL_, "Decimal"), precision=T.Int, scale=T.Int), gen_polars_decimal,
+            call=lambda self, I, fn, a: I.call(fn, [a["self"], a["precision"], a["scale"]], {}),
+            post=_post_polars_native("pl.Decimal", lambda a: ((), {"precision": a["precision"], "scale": a["scale"]}))),
+    _family("polars_timedelta", f"{PL_}:Timedelta.__init__", dict(self=_ref(PL_, "Timedelta"), time_unit=T.Any), gen_polars_timedelta,
+            call=lambda self, I, fn, a: I.call(fn, [a["self"], a["time_unit"]], {}), post=_post_polars_native("pl.Duration", lambda a: ((a["time_unit"],), {}))),
+    _family("polars_categorical", f"{PL_}:Categorical.__init__", dict(self=_ref(PL_, "Categorical"), ordering=T.Opt(T.Any)), gen_polars_categorical,
+            call=lambda self, I, fn, a: I.call(fn, [a["self"], a["ordering"]], {}), post=_post_polars_native("pl.Categorical", lambda a: ((), {"ordering": a["ordering"]}))),
+    _family("polars_enum", f"{PL_}:Enum.__init__", dict(self=_ref(PL_, "Enum"), categories=T.Any), gen_polars_enum,
+            call=lambda self, I, fn, a: I.call(fn, [a["self"], a["categories"]], {}), post=_post_polars_native("pl.Enum", lambda a: ((), {"categories": a["categories"]}))),
 ]
 
 CONTRACTS = FAMILIES
@@ -387,4 +457,4 @@ def _bounded_family(F):
     return run
 
 
-BOUNDED = [_bounded_family(F) for F in FAMILIES]
+BOUNDED = [_bounded_family(F) for F in FAMILIES if getattr(F, "bounded_standin", None) is not None]
